@@ -678,7 +678,8 @@ func randomCred(r *hx.Rng) *CredCase {
 	c.BBS = []int{1, 1, 2, 2, 3}[r.Intn(5)]
 	c.Ed = r.Intn(3) == 0
 	c.EdFirst = r.Bool()
-	c.Form = []string{"ids", "ids", "ids", "ids", "blank-subject", "blank-subject-uuid", "blank-subject-uuid", "no-ids"}[r.Intn(8)]
+	c.Form = []string{"ids", "ids", "ids", "ids", "blank-subject", "blank-subject-uuid", "blank-subject-uuid", "no-ids",
+		"blank-nested", "blank-nested-hidden"}[r.Intn(10)]
 
 	return c
 }
